@@ -10,10 +10,10 @@ extern "C" {
 #include "a/utf.h"
 }
 
-enum { L_REALLOC, L_FMT_EXACT_FIT, L_FMT_GROW, L_TRIM_EMPTIES, L_EXIT_FULL, L_EXIT, L_NUL_BYTE, L_HIGH_BYTE, L_UTF, L_SETN_GROW, L_SWAP, L_CMP, L_LEN_EQ_MEM, L_FAULT_HIT, L_FAULT_LATE, L_CAT_OTHER, L_GETN, L_LEN64, L_BIG_RESERVE };
+enum { L_REALLOC, L_FMT_EXACT_FIT, L_FMT_GROW, L_TRIM_EMPTIES, L_EXIT_FULL, L_EXIT, L_NUL_BYTE, L_HIGH_BYTE, L_UTF, L_SETN_GROW, L_SWAP, L_CMP, L_LEN_EQ_MEM, L_FAULT_HIT, L_FAULT_LATE, L_CAT_OTHER, L_GETN, L_LEN64, L_BIG_RESERVE, L_ACCESSORS };
 static char const *const labels[] = {"reallocation", "catf_exactly_fills_spare_capacity", "catf_reallocates", "trim_empties_string", "exit_with_len_eq_mem", "exit",
                                      "nul_byte_in_content", "byte_ge_0x80", "utf_catc", "setn_grows_length", "swap", "compare", "len_eq_mem_state",
-                                     "fault_hit_library_request", "fault_not_in_first_op", "cat_other_string", "getn", "len_ge_64", "reserve_ge_200_up_to_64KiB", nullptr};
+                                     "fault_hit_library_request", "fault_not_in_first_op", "cat_other_string", "getn", "len_ge_64", "reserve_ge_200_up_to_64KiB", "index_accessors_utf_len_raw_compare", nullptr};
 static char const *const metrics[] = {"max_len", "faulty_executions", nullptr};
 static uint8_t const dict[] = {0x20, 0x09, 0x0A, 0x25, 0x73, 0xC3, 0xE2, 0xF0};
 #ifdef VP_FAULT
@@ -586,6 +586,42 @@ static void run_history(Tape &t, Ctx &cx, uint64_t fail_at, int mode, uint64_t *
             verify(r, r.ss[0], "swap");
             verify(r, r.ss[1], "swap");
             break;
+        case 14: {
+            // index accessors and the UTF-8 counter of the string object, the raw comparison
+            size_t len = a_str_len(s.s), mem = a_str_mem(s.s);
+            char *base = a_str_ptr(s.s);
+            static size_t const pool[] = {0, 1, 2, 7, 8, 63, 64, size_t(-1), size_t(-2), size_t(1) << 63};
+            size_t idx = t.coin() ? pool[t.u8() % 10] : (len ? t.u16() % (len + 2) : t.u8() % 3);
+            if (t.u8() % 4 == 0) { idx = mem ? mem - (t.u8() % 2) : 0; }
+            cx.log("s%d accessors idx %zu\n", si, idx);
+            char *at = a_str_at(s.s, idx);
+            VP_CHECK(cx, at == (idx < mem ? base + idx : nullptr), "str:at", "a_str_at(%zu) with capacity %zu returned %p, storage at %p", idx, mem, (void *)at, (void *)base);
+            if (idx < mem) { VP_CHECK(cx, a_str_at_(s.s, idx) == base + idx, "str:at", "a_str_at_(%zu) is not storage + index", idx); }
+            if (len)
+            {
+                // documented domain of a_str_of: -length < idx < length; negative counts from the end
+                ptrdiff_t d = ptrdiff_t(t.u16() % (2 * len - 1)) - ptrdiff_t(len - 1);
+                char *of = a_str_of(s.s, d);
+                size_t want = d >= 0 ? size_t(d) : len - size_t(-d);
+                VP_CHECK(cx, of == base + want && (unsigned char)*of == (unsigned char)s.m[want], "str:of", "a_str_of(%td) on length %zu is not the character at %zu", d, len, want);
+            }
+            {
+                a_size st1 = 7, st2 = 9;
+                a_size c1 = a_utf_len(s.s, &st1), c2 = a_utf_length(base, len, &st2);
+                VP_CHECK(cx, c1 == c2 && st1 == st2 && a_utf_len(s.s, nullptr) == c1, "str:utf_len", "a_utf_len = %zu (stop %zu), a_utf_length on the same bytes = %zu (stop %zu)", (size_t)c1, (size_t)st1, (size_t)c2, (size_t)st2);
+            }
+            {
+                S &o = r.ss[si ^ 1];
+                size_t n0 = t.coin() ? len : (len ? t.u16() % (len + 1) : 0), ol = a_str_len(o.s), n1 = t.coin() ? ol : (ol ? t.u16() % (ol + 1) : 0);
+                int got = a_str_cmp_(base, n0, a_str_ptr(o.s), n1);
+                int want = 0;
+                if (base && a_str_ptr(o.s)) { want = memcmp(s.m.data(), o.m.data(), std::min(n0, n1)); }
+                if (!want) { want = (n0 > n1) - (n0 < n1); }
+                VP_CHECK(cx, (got > 0) == (want > 0) && (got < 0) == (want < 0), "str:cmp", "a_str_cmp_ on prefixes of %zu / %zu bytes returned %d, byte-wise order says %d", n0, n1, got, want);
+            }
+            cx.label(L_ACCESSORS);
+            verify(r, s, "accessors");
+            break; }
         default:
             a_str_dtor(s.s);
             a_str_ctor(s.s);
